@@ -5,6 +5,9 @@ import sys
 
 
 def nbytes(o):
+    # like cachey.nbytes: objects that report their own size (NumPy arrays: 0 for an empty one) are believed
+    if hasattr(o, "nbytes"):
+        return int(o.nbytes)
     return sys.getsizeof(o)
 
 
